@@ -24,8 +24,8 @@ FwdNoSkip == ~fs.done => \A i \in 0..fs.pos - 1 : ~Occurs(h, n, i)
 RevNoSkip == ~rs.done => \A i \in 0..Len(h) : (i + Len(n) > rs.pos) => ~Occurs(h, n, i)
 PrepLinear == PF.steps <= 4 * Len(n) /\ PR.steps <= 4 * Len(n)
 SearchLinear == fs.cmps <= 2 * Len(h) + 2 * Len(n) /\ rs.cmps <= 2 * Len(h) + 2 * Len(n)
-Vector == [m |-> "tw", n |-> n, h |-> h, find |-> FindSub(h, n), rfind |-> RFindSub(h, n),
+Vector == [m |-> "tw", modk |-> MODK, n |-> n, h |-> h, find |-> FindSub(h, n), rfind |-> RFindSub(h, n),
            fcrit |-> PF.crit, fsmall |-> PF.small, fval |-> PF.val, rcrit |-> PR.crit, rsmall |-> PR.small, rval |-> PR.val,
-           fcmps |-> fs.cmps, rcmps |-> rs.cmps, arms |-> {"f_" \o a : a \in fs.arms} \cup {"r_" \o a : a \in rs.arms}]
+           fcmps |-> fs.cmps, rcmps |-> rs.cmps, fticks |-> fs.ticks, rticks |-> rs.ticks, pfsteps |-> PF.steps, prsteps |-> PR.steps, arms |-> {"f_" \o a : a \in fs.arms} \cup {"r_" \o a : a \in rs.arms}]
 EmitReplay == (Emit /\ Done) => PrintT(<<"REPLAY", ToJson(Vector)>>)
 =============================================================================
